@@ -281,8 +281,9 @@ def devTagSkippedPart (cls : Classes) (t : Token) : Bool :=
   decidable facts which the driver evaluates on every generated case.  They do not mention
   token values (except a comment's) or the lexer's columns.  `measured` / `measB` / `placed` are
   intermediate notions (the cursor agrees with UTF-16 lengths and LSP characters) which
-  HL/Lemmas/SemTokPlace.lean derives from the contract; `inlineB` is the one hypothesis that
-  the open CRLF finding falsifies. -/
+  HL/Lemmas/SemTokPlace.lean derives from the contract; `inlineB` (every piece ends inside its
+  line) follows from the contract unless a comment's value ends with a CR
+  (HL/Lemmas/SemTokLines.lean) — the open CRLF finding. -/
 
 /-- No line feed in `text[a:b)`. -/
 def noLf (text : Bytes) (a b : Nat) : Bool := !(sliceB text a b).contains lf
